@@ -127,7 +127,6 @@ def check_encoding(ck, n):
     for _ in range(rng.randint(1, 3)): m ^= 1 << rng.choice([0, 1, 2, 3, 4, 5, 6, 12, 13, 14, 25, 26, 30, 31, 7, 15, 20, rng.randint(0, 31)])
     words.append(m)
   words += [rng.getrandbits(32) for _ in range(n // 2)] + [0, 0x13, 0xffffffff]
-  dec = ck.drv('rv').batch([leanio.line('rv', 'decode', w) for w in words])
   for i, pc, a, e in zip(insts, pcs, asm, enc):
     case = {'part': 'encode', 'inst': list(i), 'pc': pc}
     ck.count(case, True); ck.hist('encode', i[0])
@@ -137,18 +136,32 @@ def check_encoding(ck, n):
                    {'assembler': hex(a), 'isa_document': hex(want), 'model': e, 'oracle': 'encoding tables of tinyrv0-isa.md restated in Python'})
     elif e != str(a):
       ck.disagreement('Model.encode≈tinyrv0_encoding.assemble_inst', case, e, str(a))
+  decode_words(ck, words, 'random')
+
+def decode_words(ck, words, label):
+  dec = ck.drv('rv').batch([leanio.line('rv', 'decode', w) for w in words])
   for w, m in zip(words, dec):
     case = {'part': 'decode', 'word': w}
     d = u.isa_decode(w)
     want = oracle_fields(d)
     got = repo_decode(w)
-    ck.count(case, d is not None); ck.hist('decode', 'valid' if d else 'invalid')
+    ck.count(case, d is not None); ck.hist('decode', label + ('-valid' if d else '-invalid'))
     mm = None if m == 'none' else m
     if got != want:
       ck.violation('disassembler-decoding', {'inst': d[0] if d else 'none'}, case,
                    {'repo_tables': got, 'isa_document': want, 'model': m, 'oracle': 'opcode/funct table of tinyrv0-isa.md restated in Python'})
     elif mm != got:
       ck.disagreement('Model.decode≈tinyrv0_encoding decode tables', case, m, got)
+
+def exhaustive_decode(ck, quick):
+  """every opcode x funct3 x funct7 class x (rd, rs1) class, other bits fixed: the whole decision table of decode"""
+  f7s = [0, 0x20] if quick else [0, 1, 0x20, 0x3f, 0x40, 0x7f]
+  regs = [(0, 0), (1, 1)] if quick else [(a, b) for a in (0, 1, 31) for b in (0, 1, 31)]
+  words = [(f7 << 25) | (5 << 20) | (rs1 << 15) | (f3 << 12) | (rd << 7) | opc
+           for opc in range(128) for f3 in range(8) for f7 in f7s for rd, rs1 in regs]
+  decode_words(ck, words, 'table')
+  ck.extra_cov['exhaustive_part'] = (f'decode decision table: all 128 opcodes x 8 funct3 x funct7 in {[hex(x) for x in f7s]} x '
+                                     f'{len(regs)} (rd, rs1) classes = {len(words)} words')
 
 #=========================================================================
 # programs
@@ -187,7 +200,11 @@ def directed_program(text, inp, rng):
   ref['mem'] = bytes(mem)
   return dict(text=full, words=words, inp=list(inp), insts=None, ref=ref, attempts=0)
 
-def rand_cfg(rng):
+def rand_cfg(rng, tight=False):
+  """[src_delay, sink_delay, mem_stall_prob, mem_latency]; `tight` = latency 1 and no stalls, the only setting in which
+  consecutive instructions are adjacent in the pipelines (back-to-back hazards, branch shadows)"""
+  if tight or rng.random() < 0.1:
+    return [rng.choice([0, 0, 1, 3]), rng.choice([0, 0, 1, 4]), 0, 1]
   return [rng.randint(0, 5), rng.randint(0, 5), rng.choice([0, 0.3, 0.6]), rng.randint(1, 5)]
 
 def model_run_line(pr, fuel):
@@ -207,6 +224,7 @@ def model_image(m):
 
 def first_diff(a, b):
   n = min(len(a), len(b))
+  if a[:n] == b[:n]: return None
   for i in range(0, n, 4):
     if a[i:i + 4] != b[i:i + 4]:
       return {'addr': hex(i), 'left': a[i:i + 4][::-1].hex(), 'right': b[i:i + 4][::-1].hex()}
@@ -281,7 +299,7 @@ def check_programs(ck, nprog, ncfg, sizes, fuel):
   enc = ck.drv('rv').batch(enc_lines)
   for p, rep, (a, b) in zip(progs, replies, spans):
     if p['insts']: check_assembled(ck, p, enc[a:b])
-    eval_program(ck, p, rep, [rand_cfg(rng) for _ in range(ncfg)], fuel)
+    eval_program(ck, p, rep, [rand_cfg(rng, tight=(k == 0 and rng.random() < 0.7)) for k in range(ncfg)], fuel)
     if len(ck.violations) > 20: break
 
 #=========================================================================
@@ -326,9 +344,10 @@ def check_cksum(ck, n):
 def run(ck):
   quick = ck.tier == 'quick'
   check_encoding(ck, 400 if quick else 6000)
+  exhaustive_decode(ck, quick)
   check_cksum(ck, 150 if quick else 3000)
-  if quick: check_programs(ck, 40, 2, [25, 50, 80, 120], 4000)
-  else: check_programs(ck, 330, 2, [20, 40, 60, 90, 140, 200], 6000)
+  if quick: check_programs(ck, 34, 2, [25, 50, 80, 120], 4000)
+  else: check_programs(ck, 440, 2, [20, 40, 60, 90, 140, 200], 6000)
 
 def replay(ck, data):
   c = data['case']
